@@ -34,6 +34,35 @@ theorem counted_logCall {n g : Nat} {s : St α} (k : CallKind) (a : Vec α) (hF 
   rw [nF_append_other _ _ _ hF, nG_append_other _ _ _ hG]
   exact h
 
+theorem doCallback_inv5 (u : User α ε) (c : Cfg α) (sc : α) (n g : Nat) (s s' : St α)
+    (hi : Inv5 u c sc n g s) (h : doCallback u c s = .ok s') : Inv5 u c sc n g s' := by
+  unfold doCallback at h
+  split at h
+  · simp only [bind, Except.bind] at h
+    split at h
+    · simp at h
+    · rename_i b hb
+      simp only [pure, Except.pure] at h
+      injection h with h
+      have hcbs : ∀ cb ∈ s.cbStates ++ [{ s.result with nit := s.nit + 1 }],
+          CohAt u c sc cb.x cb.f cb.jac := by
+        intro cb hcb
+        rcases List.mem_append.1 hcb with h' | h'
+        · exact hi.cbs cb h'
+        · simp only [List.mem_singleton] at h'
+          subst h'
+          exact hi.at_x
+      have hcnt2 := counted_logCall (s := s) .callback s.x (by decide) (by decide) hi.counted
+      cases b
+      all_goals
+        simp only [if_true, Bool.false_eq_true, if_false] at h
+        subst h
+        exact ⟨hi.lb_eq, hi.ub_eq, hi.mode_eq, hi.scale_eq,
+           by simpa [St.logCall, Coh] using hi.coh, hi.at_x, hcnt2, hcbs⟩
+  · simp only [pure, Except.pure] at h
+    injection h with h; subst h
+    exact hi
+
 theorem iterStep_inv5 (u : User α ε) (c : Cfg α) (hU : c.hasUpdate = false) (sc : α) (n g : Nat)
     (s s' : St α) (d : Vec α) (stp f0Old : α) (flow : Flow) (hi : Inv5 u c sc n g s)
     (h : iterStep u c s d stp f0Old = .ok (s', flow)) : Inv5 u c sc n g s' := by
@@ -76,39 +105,10 @@ theorem iterStep_inv5 (u : User α ε) (c : Cfg α) (hU : c.hasUpdate = false) (
         · rename_i s2 hs2
           simp only [pure, Except.pure] at h
           injection h with h; injection h with h1 _; subst h1
-          unfold doCallback at hs2
-          split at hs2
-          · simp only [bind, Except.bind] at hs2
-            split at hs2
-            · simp at hs2
-            · rename_i b hb
-              simp only [pure, Except.pure] at hs2
-              injection hs2 with hs2
-              have hcbs : ∀ cb ∈ s1.cbStates ++ [{ ({ s1 with
-                    X := (updateMats s1.x s1.g s1.X s1.G c.maxcor s1.mats c.epsSY).1,
-                    G := (updateMats s1.x s1.g s1.X s1.G c.maxcor s1.mats c.epsSY).2.1,
-                    mats := (updateMats s1.x s1.g s1.X s1.G c.maxcor s1.mats c.epsSY).2.2.1 } : St α).result
-                    with nit := s1.nit + 1 }], CohAt u c sc cb.x cb.f cb.jac := by
-                intro cb hcb
-                rcases List.mem_append.1 hcb with h' | h'
-                · exact i1.cbs cb h'
-                · simp only [List.mem_singleton] at h'
-                  subst h'
-                  exact i1.at_x
-              have hcnt2 := counted_logCall (s := { s1 with
-                      X := (updateMats s1.x s1.g s1.X s1.G c.maxcor s1.mats c.epsSY).1,
-                      G := (updateMats s1.x s1.g s1.X s1.G c.maxcor s1.mats c.epsSY).2.1,
-                      mats := (updateMats s1.x s1.g s1.X s1.G c.maxcor s1.mats c.epsSY).2.2.1 })
-                     .callback s1.x (by decide) (by decide) i1.counted
-              cases b
-              all_goals
-                simp only [if_true, Bool.false_eq_true, if_false] at hs2
-                subst hs2
-                exact ⟨i1.lb_eq, i1.ub_eq, i1.mode_eq, i1.scale_eq,
-                   by simpa [St.logCall, Coh] using i1.coh, i1.at_x, hcnt2, hcbs⟩
-          · simp only [pure, Except.pure] at hs2
-            injection hs2 with hs2; subst hs2
-            exact ⟨i1.lb_eq, i1.ub_eq, i1.mode_eq, i1.scale_eq, i1.coh, i1.at_x, i1.counted, i1.cbs⟩
+          have im : Inv5 u c sc n g (memStep c s1) :=
+            ⟨i1.lb_eq, i1.ub_eq, i1.mode_eq, i1.scale_eq, i1.coh, i1.at_x, i1.counted, i1.cbs⟩
+          have i2 := doCallback_inv5 u c sc n g _ s2 im hs2
+          exact ⟨i2.lb_eq, i2.ub_eq, i2.mode_eq, i2.scale_eq, i2.coh, i2.at_x, i2.counted, i2.cbs⟩
 
 theorem iterBody_inv5 (u : User α ε) (o : Oracles α δ) (c : Cfg α) (hU : c.hasUpdate = false)
     (sc : α) (n g : Nat) (s s' : St α) (flow : Flow) (hi : Inv5 u c sc n g s)
